@@ -430,16 +430,29 @@ func (s *c05sys) Canon() string {
 
 func c05Configs(tier string) []*xplore.Config {
 	ops := c05Ops()
-	hd, sd, ms := 4, 0, 0
-	if tier == "thorough" {
-		hd, sd, ms = 5, 5, 400000
-	}
-	return []*xplore.Config{{
+	cfgs := []*xplore.Config{{
 		Name: "antrea-elements", NumOps: len(ops), OpName: func(i int) string { return ops[i].name },
 		New:       func() xplore.Sys { return newC05(ops) },
-		HistDepth: hd, StateDepth: sd, MaxStates: ms,
+		HistDepth: 4,
 		Interesting: func(cn string) bool { return strings.Count(cn, "k") >= 1 },
 	}}
+	if tier == "thorough" {
+		// deeper histories over a reduced alphabet (one end-time step, increments +small/+huge; 27^5
+		// histories of the full alphabet take more than 20 minutes), plus a small de-duplicated BFS
+		var red []c05op
+		for _, o := range ops {
+			if o.kind != 'r' || (o.dEnd == 2 && o.inc != 0) {
+				red = append(red, o)
+			}
+		}
+		cfgs = append(cfgs, &xplore.Config{
+			Name: "antrea-elements,reduced-alphabet", NumOps: len(red), OpName: func(i int) string { return red[i].name },
+			New:       func() xplore.Sys { return newC05(red) },
+			HistDepth: 6, StateDepth: 4, MaxStates: 20000,
+			Interesting: func(cn string) bool { return strings.Count(cn, "k") >= 1 },
+		})
+	}
+	return cfgs
 }
 
 func runC05(tier, replay string) int {
@@ -464,7 +477,7 @@ func runC05(tier, replay string) int {
 	ev.Coverage = common.Coverage{
 		"states": states, "transitions": tot.Trans, "traces_validated_against_impl": tot.Traces, "samples": tot.Samples,
 		"evaluations": tot.Traces, "distinct_nontrivial": tot.Traces,
-		"rule":       "every history over 27 operations {record(key in {inter-node pair, intra IPv4, intra IPv6}, reporting stream, end-time step in {2,10}, counter increment in {+0, +small, +2^40}), active export with reset, reset through ForAllRecordsDo, inactive expiry} up to hist_depth, generated within the statement's contract (per node: end strictly increasing, totals non-decreasing, end > start; no cross-node end-time ties); after every operation every field of every aggregated record is compared with the arithmetic model (aggmodel, DESIGN Appendix B.1). Histories are distinct by construction; distinct_nontrivial counts them (each contains at least one record or export). Thorough adds a depth-bounded BFS de-duplicated on all record values (the graph does not close: counters grow)",
+		"rule":       "every history over 27 operations {record(key in {inter-node pair, intra IPv4, intra IPv6}, reporting stream, end-time step in {2,10}, counter increment in {+0, +small, +2^40}), active export with reset, reset through ForAllRecordsDo, inactive expiry} up to depth 4 (thorough: additionally depth 6 over a reduced alphabet of 11 operations), generated within the statement's contract (per node: end strictly increasing, totals non-decreasing, end > start; no cross-node end-time ties); after every operation every field of every aggregated record is compared with the arithmetic model (aggmodel, DESIGN Appendix B.1). Histories are distinct by construction; distinct_nontrivial counts them (each contains at least one record or export). Thorough adds a depth-bounded BFS de-duplicated on all record values (the graph does not close: counters grow)",
 		"exhaustive": tot.Exhaustive, "per_config": tot.PerCfg,
 	}
 	ev.Assumptions = []string{"common total counters: any of {latest by end time, maximum, latest by arrival} is accepted where the readings differ", "first record of a node: throughput is measured since flow start"}
